@@ -907,7 +907,8 @@ row('FLOAT.RAND', ['C13'], fired='f32_lt(S0.config.min_random_float, S0.config.m
               'f32_le(S0.config.min_random_float, top(S1.float, 0)) && f32_lt(top(S1.float, 0), S0.config.max_random_float)')])
 row('NAME.RAND', ['C13'], pushes=[('name', None)])
 # "returns a currently bound name whenever one exists": existing_random_name collects keys().cloned() -- outside Verus (not decided)
-row('NAME.RANDBOUNDNAME', ['C13'], pushes=[('name', None)])
+row('NAME.RANDBOUNDNAME', ['C13'], pushes=[('name', None)], clauses=[
+    ('fired.value.a-currently-bound-name', 'S0.bindings.len() > 0 ==> S0.bindings.contains_key(top(S1.name, 0))')])
 # never more points than |n| nor than max-points-in-random-expressions
 _lim = 'sat_abs(top(S0.int, 0))'
 _cfg = 'sat_abs(S0.config.max_points_in_random_expressions)'
